@@ -28,7 +28,9 @@ class Ref:
         r.conf = set()            # St objects
         r.hist = {}               # history id -> list of St
         r.iq = collections.deque(); r.eq = collections.deque()
-        r.env = dict(ch.data)     # root data: early binding, or late binding at root entry (same instant: before any content runs)
+        r.env = {}                # root data: early binding, or late binding at root entry (same instant: before any content runs)
+        for k, v in sorted(ch.data.items()):      # initialisers in document order; one may refer to data declared before it
+            r.env[k] = ev_expr(v, r.env, ()) if isinstance(v, tuple) else v
         r.initialized = set()
         r.running = True
         r.steps = []
